@@ -188,3 +188,7 @@ Proof.
     eapply (lo_ok t_BIGTIMEN 8 _ _ _ D NN); try eassumption; try discriminate; try apply bigtime_layout.
     rewrite bigtime_layout. do 2 f_equal. unfold ProofsTemporal.tod_us. cbn [cy cmo cd ch cmi cs cns]. lia.
 Qed.
+
+(* the model's fn 1 output carries the purity observation the specification demands *)
+Lemma layout_model_pure i v : value_of_tree (t_nth 2 i) = Some v -> pure_ok (t_nth 2 (run 1 i)) = true.
+Proof. intros H. change (run 1 i) with (run_layout i). unfold run_layout. rewrite H. reflexivity. Qed.
